@@ -10,7 +10,13 @@ EVID_DIR = os.path.join(env.VERIF_DIR, "evidence")
 
 def write(prop, tier, seed, eng, cfg, res, report, violations_out, known_out,
           harness_errors, wall, workers):
-    os.makedirs(EVID_DIR, exist_ok=True)
+    evid_dir = EVID_DIR
+    if os.path.realpath(env.REPO) != os.path.realpath("/repo"):
+        # a sensitivity / over-strictness self-test against a scratch copy (VERIF_REPO):
+        # its evidence must not replace the evidence about /repo
+        evid_dir = os.environ.get("VERIF_EVIDENCE_DIR") or os.path.join(
+            "/tmp", "odq-evidence-scratch")
+    os.makedirs(evid_dir, exist_ok=True)
     res = res or {}
     runs = res.get("runs", 0)
     batch_wall = res.get("wall_s") or 0.0
@@ -64,7 +70,7 @@ def write(prop, tier, seed, eng, cfg, res, report, violations_out, known_out,
         "coverage": cov, "assumptions": eng.ASSUMPTIONS, "wall_s": round(wall, 2),
         "violations": len(violations_out),
     }
-    path = os.path.join(EVID_DIR, "%s.json" % prop)
+    path = os.path.join(evid_dir, "%s.json" % prop)
     tmp = path + ".tmp"
     with open(tmp, "w") as f:
         json.dump(doc, f, indent=1, default=repr)
